@@ -42,7 +42,9 @@ const INT_MIN_MAGNITUDE: u64 = 1 << 63;
 // The parser is recursive and so are the consumers of the tree it builds.
 // Deeper or longer input is reported as a syntax error instead of exhausting
 // the stack. Both limits are generous for hand written expressions.
-const MAX_NESTING_DEPTH: usize = 32;
+// The JSON form of a program nests four levels per nested code block and
+// serde_json reads at most 128 levels: 31 keeps every program readable.
+const MAX_NESTING_DEPTH: usize = 31;
 const MAX_CHAINED_OPERATORS: usize = 4096;
 
 impl<'l> CelCompiler<'l> {
